@@ -30,6 +30,23 @@ pub fn registers() -> BoxedStrategy<Vec<u8>> {
     }).boxed()
 }
 
+/// long sums: independent points, or P repeated / alternating P, -P / P, P+T (related summands)
+pub fn sum_many() -> BoxedStrategy<Req> {
+    (0usize..120, 0u8..4, vec(edwards_point(), 1..6)).prop_map(|(n, kind, base)| {
+        let mut b = vec![];
+        for i in 0..n {
+            let mut e = base[i % base.len()].1;
+            match kind {
+                1 => e = base[0].1,
+                2 => { e = base[0].1; if i % 2 == 1 { e[31] ^= 0x80; } }
+                _ => {}
+            }
+            b.extend_from_slice(&e);
+        }
+        Req::new("ed.sum_many", vec![b])
+    }).boxed()
+}
+
 pub fn program(maxlen: usize) -> BoxedStrategy<Vec<u8>> {
     vec((0u8..16, any::<u8>(), any::<u8>(), any::<u8>()), 1..=maxlen).prop_map(|v| {
         let mut o = vec![];
@@ -106,6 +123,7 @@ pub fn public_strategy() -> BoxedStrategy<Req> {
     prop_oneof![
         3 => edwards_encoding().prop_map(|(_, e)| Req::new("ed.decompress", vec![e.to_vec()])),
         2 => (registers(), program(16)).prop_map(|(r, p)| Req::new("ed.history", vec![r, p])),
+        1 => sum_many(),
     ].boxed()
 }
 
@@ -143,6 +161,17 @@ pub fn checks(tier: Tier) -> Vec<Check> {
             oracle: oracle(),
             classify: Box::new(history_labels),
             rule: RULE_HIST,
+            exhaustive: false,
+            enumerate: None,
+        },
+        Check {
+            name: "C03.long-sums".into(),
+            strategy: sum_many(),
+            cases: tier.scale(1_500, 10),
+            exec: Box::new(crate::ops::exec),
+            oracle: Box::new(crate::mops::oracle),
+            classify: Box::new(|r: &Req, _| { let n = r.a[0].len() / 32; if n >= 16 { vec!["sum-of->=16-points"] } else { vec!["sum"] } }),
+            rule: "Sum over 0..120 points (by reference and by value), independent or related summands (P repeated, P/-P alternating); oracle: the affine model's repeated addition",
             exhaustive: false,
             enumerate: None,
         },
